@@ -28,6 +28,21 @@ CLAIMED = {
  "C16": ("runtime monitoring: encode/decode round-trip monitor over reflect-generated values of a tagged struct family (native route, harness-rendered JSON twin in literal and expression mode, hclsimple), plus a panic monitor on perturbed contents",
          "Values of six struct types covering every tag kind and Go field type are filled by reflection from hostile alphabets, encoded with gohcl, parsed and decoded back (nil and non-nil EvalContext), decoded from the harness's own JSON rendering of the same value, and decoded through hclsimple by file name; the decoded value must equal the original (nil == empty, NFC strings). Mutated contents are decoded into the same types under a panic guard. Held on the executions observed.",
          "Pointer-typed attributes are tagged optional (a nil pointer is encoded by omission). Trusts gocty conversions.", "DESIGN.md §5 C16"),
+ "C05": ("runtime monitoring: abstraction-soundness relation between one evaluation with unknown variables and many concrete evaluations admitted by the same refinements",
+         "Generated and directed expressions are evaluated once with a subset of their variables replaced by typed / refined / dynamic / nested unknowns and 8 times with concrete instantiations that satisfy the same refinements (original values, random values, extremes); each error-free concrete result must be consistent with the abstract one (known parts equal, typed unknowns of the concrete type, not-null / prefix / numeric / length refinements satisfied) and must itself contain no unknown. Held on the executions observed.",
+         "Trusts cty's own operations on unknown values; marks are ignored (C06). One adjudicated class is reported as KNOWN-FINDING.", "DESIGN.md §5 C05"),
+ "C06": ("runtime monitoring: two-run non-interference (hyperproperty) monitor with a marked variable whose content differs between the runs",
+         "The same program (native expression, JSON-syntax expression, hcldec-decoded body, dynamic-block body) is evaluated in two scopes that differ only in the content of the marked part of one variable; when both runs are error-free and the unmarked results differ, both results must carry the mark. Witnesses are shrunk on the AST and classed; adjudicated classes are reported as KNOWN-FINDING. Held on the executions observed.",
+         "Trusts cty's propagation of marks inside its own operations and function calls; marked parts that are null are excluded (go-cty drops the marks of a null element entering a set).", "DESIGN.md §5 C06"),
+ "C07": ("runtime monitoring: scope-pruning and scope-perturbation relations over reported variable sets",
+         "Native and JSON expressions, hcldec bodies and bodies with dynamic blocks are evaluated under the full scope, under only the reported root names, and with every unreported variable replaced; value and diagnostic multiset must agree. Decoy variables named like bound iterators are present; a precision clause with globally fresh iterator names requires that bound names are never reported; the expansion variable set of dynamic blocks is pruned independently. Held on the executions observed.",
+         "Diagnostics compared modulo the 'Did you mean' suggestion and modulo order (hcldec iterates Go maps).", "DESIGN.md §5 C07"),
+ "C19": ("runtime monitoring: taint-canary monitor scanning every diagnostic's summary, detail and text-writer rendering for secrets that occur only inside marked values",
+         "Generated (50% ill-typed) and directed erroneous expressions, JSON expressions and hcldec/dynblock bodies are evaluated in scopes whose marked values hold per-case random canaries (strings, numbers, map keys); all diagnostics are rendered as Summary, Detail and through NewDiagnosticTextWriter with the source registered, and scanned. One adjudicated root cause is reported as KNOWN-FINDING (identified by re-running with element-level marks). Held on the executions observed.",
+         "Canaries never occur in source text or message templates; harness function messages are fixed canary-free strings.", "DESIGN.md §5 C19"),
+ "C20": ("runtime monitoring: agreement monitors between static views (traversal, list, map, call, type constraint) and evaluation / parsers, both syntaxes",
+         "Traversal-shaped texts are analysed statically and the resulting absolute and relative traversals are applied to generated scopes and compared with evaluation, repeatedly and in either order; texts accepted by the stand-alone traversal parser are compared step by step with the expression parser (and with the JSON string view); static list/map/call parts are evaluated one by one and compared with the whole; generated types are rendered with TypeString and parsed back natively and from JSON. Held on the executions observed.",
+         "Keyword roots (true/false/null) are excluded from the evaluation comparison (a deviation the specification prescribes).", "DESIGN.md §5 C20"),
 }
 
 NOT_YET = "monitor designed in DESIGN.md §5 but not yet built in this tree; will be claimed once its check is registered"
